@@ -76,6 +76,14 @@ class IntrospectablePass(object):
         target = self._transformer.resolve_aliases(target)
 
         if node.skip:
+            # A skipped value is still written to the GIR, so it must remain
+            # representable there: varargs have no type node and the
+            # transfer-ownership attribute is mandatory.
+            if isinstance(node.type, ast.Varargs):
+                parent.introspectable = False
+            elif node.transfer is None:
+                self._parameter_warning(parent, node, "Missing (transfer) annotation")
+                parent.introspectable = False
             return
 
         if not node.type.resolved:
